@@ -133,3 +133,33 @@ func (f *FaultWriter) Write(p []byte) (int, error) {
 	}
 	return room, e
 }
+
+// QuirkReader is a plain io.Reader (no io.ByteReader) that uses the liberties the
+// io.Reader contract grants: with Stutter every other call returns (0, nil), and with
+// DataEOF the call that delivers the final byte returns io.EOF together with the data.
+type QuirkReader struct {
+	B       []byte
+	Pos     int
+	Stutter bool
+	DataEOF bool
+	calls   int
+}
+
+func (q *QuirkReader) Read(p []byte) (int, error) {
+	q.calls++
+	if len(p) == 0 {
+		return 0, nil
+	}
+	if q.Stutter && q.calls%2 == 1 {
+		return 0, nil
+	}
+	if q.Pos >= len(q.B) {
+		return 0, io.EOF
+	}
+	n := copy(p, q.B[q.Pos:])
+	q.Pos += n
+	if q.DataEOF && q.Pos == len(q.B) {
+		return n, io.EOF
+	}
+	return n, nil
+}
